@@ -44,6 +44,9 @@ fn stats_json(s: &Stats) -> J {
         .set("decisions", J::u(s.decisions))
         .set("out_of_order_items", J::u(s.out_of_order_items))
         .set("workers_used_max", J::u(s.workers_used_max))
+        .set("clock_drift_ops", J::u(s.clock_drift_ops))
+        .set("clock_jumps", J::u(s.clock_jumps))
+        .set("clock_ns_added", J::u(s.clock_ns_added))
 }
 
 fn fnv_u32s(d: &[u32]) -> u64 {
@@ -266,6 +269,7 @@ pub fn cmd_e1(args: &Args) -> i32 {
         .set("input_changes_between_ops", J::u(input_changes))
         .set("concurrent_op_pairs", J::u(concurrent_ops))
         .set("variant_kinds", J::Obj(variant_kinds.into_iter().map(|(k, v)| (k, J::u(v))).collect()))
+        .set("simulated_clock_reads", J::u(sim_rayon::clock::reads()))
         .set("wall_s", J::Num(wall))
         .set(
             "seconds_in",
